@@ -321,7 +321,7 @@ func objLeaves3() []Leaf3 {
 		return obj.DirectedArrow3D(&k, xyz(0, 0, -4), xyz(0, 0, 4))
 	}))
 
-	// obj.Bolt (examples/3dp_nutbolt). Expensive: Screw3D thread (polygon evaluation per point),
+	// obj.Bolt (examples/3dp_nutbolt). Comparatively expensive (measured: still only a few microseconds per Evaluate): Screw3D thread (polygon evaluation per point),
 	// the knurled head is the intersection of two 8-start screws.
 	add(mk3("obj.Bolt(M8x1.25,hex,tol=0,total=20,shank=5)", "obj.Bolt", false, false, func() (sdf.SDF3, error) {
 		return obj.Bolt(&obj.BoltParms{Thread: "M8x1.25", Style: "hex", TotalLength: 20, ShankLength: 5})
@@ -376,7 +376,7 @@ func objLeaves3() []Leaf3 {
 		return obj.CounterSunkHole3D(30, 2)
 	}))
 
-	// obj.DrainCover (examples/draincover). Expensive: a revolved polygon minus a union of
+	// obj.DrainCover (examples/draincover). Comparatively expensive (measured: still only a few microseconds per Evaluate): a revolved polygon minus a union of
 	// GrateNumber (x2 with a crossbar) elongated cones. Small GrateNumber here.
 	add(mk3("obj.DrainCover(dia=48,wall=12x3,draft=0,outer=5,inner=4.5,cover=3,grates=4x1.0,gratedraft=0,no crossbar)", "obj.DrainCover", false, true, func() (sdf.SDF3, error) {
 		return obj.DrainCover(&obj.DrainCoverParms{
@@ -432,7 +432,7 @@ func objLeaves3() []Leaf3 {
 		return obj.EuroRackPanel3D(&obj.EuroRackParms{U: 1, HP: 4, Thickness: 2})
 	}))
 
-	// obj.GfBase, obj.GfBody (examples/gridfinity). Moderately expensive (Multi3D of pyramids and holes).
+	// obj.GfBase, obj.GfBody (examples/gridfinity). Comparatively expensive (Multi3D of pyramids and holes).
 	add(mk3("obj.GfBase(1x1)", "obj.GfBase", false, true, func() (sdf.SDF3, error) {
 		return ok3(obj.GfBase(&obj.GfBaseParms{Size: v2i.Vec{X: 1, Y: 1}}))
 	}))
@@ -489,7 +489,7 @@ func objLeaves3() []Leaf3 {
 		}))
 	}
 
-	// obj.Knurl3D, obj.KnurledHead3D (examples/gas_cap). Expensive: intersection of two multi-start screws.
+	// obj.Knurl3D, obj.KnurledHead3D (examples/gas_cap). Comparatively expensive (measured: still only a few microseconds per Evaluate): intersection of two multi-start screws.
 	add(mk3("obj.Knurl3D(l=4,r=4,pitch=1,h=0.25,theta=45)", "obj.Knurl3D", false, false, func() (sdf.SDF3, error) {
 		return obj.Knurl3D(&obj.KnurlParms{Length: 4, Radius: 4, Pitch: 1, Height: 0.25, Theta: deg(45)})
 	}))
@@ -500,7 +500,7 @@ func objLeaves3() []Leaf3 {
 		return obj.KnurledHead3D(8, 6, 2)
 	}))
 
-	// obj.Nut (examples/3dp_nutbolt). Expensive: Screw3D thread.
+	// obj.Nut (examples/3dp_nutbolt). Comparatively expensive (measured: still only a few microseconds per Evaluate): Screw3D thread.
 	add(mk3("obj.Nut(M8x1.25,hex,tol=0)", "obj.Nut", false, false, func() (sdf.SDF3, error) {
 		return obj.Nut(&obj.NutParms{Thread: "M8x1.25", Style: "hex"})
 	}))
@@ -511,7 +511,7 @@ func objLeaves3() []Leaf3 {
 		return obj.Nut(&obj.NutParms{Thread: "unc_5/8", Style: "knurl", Tolerance: 0.005})
 	}))
 
-	// obj.ThreadedCylinderParms.Object (examples/pico_cnc). Expensive: Screw3D thread.
+	// obj.ThreadedCylinderParms.Object (examples/pico_cnc). Comparatively expensive (measured: still only a few microseconds per Evaluate): Screw3D thread.
 	add(mk3("obj.ThreadedCylinderParms.Object(h=10,dia=6,unc_8_32,tol=0)", "obj.ThreadedCylinderParms.Object", false, false, func() (sdf.SDF3, error) {
 		k := &obj.ThreadedCylinderParms{Height: 10, Diameter: 6, Thread: "unc_8_32", Tolerance: 0}
 		return k.Object()
@@ -537,7 +537,7 @@ func objLeaves3() []Leaf3 {
 	}))
 
 	// obj.PanelBox3D (examples/panel_box): returns {panel, top, bottom}; every part is a leaf.
-	// Moderately expensive (unions of tabs, ridges, holes).
+	// Comparatively expensive (unions of tabs, ridges, holes).
 	panelBoxParts := []string{"panel", "top", "bottom"}
 	for _, k := range []struct {
 		name string
